@@ -291,7 +291,8 @@ func c02(c *Ctx) {
 						}
 						return true
 					}
-					return strings.Contains(an.Path(v), ".Runtime")
+					// (a nil total is what a failed level hands back together with "not ok"; the caller returns on it)
+					return strings.Contains(an.Path(v), ".Runtime") || an.IsNilConst(v)
 				}
 				for k, e := range phi.Edges {
 					pred := phi.Block().Preds[k]
